@@ -465,3 +465,55 @@ def ret_is_error(gf, bid, x):
             if (not truth) and txt in ("(%s >= 0)" % n, "(%s == 0)" % n + "__never__"):
                 return True
     return False
+
+
+def returns_with_atoms(fn, watch, limit=20000):
+    """Path enumeration restricted to watched branch atoms: yields {(return line, return element, frozenset(atoms))}
+    where atoms are the (text, truth) outcomes, along one path, of the branch conditions whose text satisfies watch();
+    paths are merged when they agree on the watched atoms (so the state space is |blocks| x 2^|watched atoms|).
+    An atom is dropped when a variable or field path it mentions is assigned later on the path."""
+    from .pp import pp
+    out = set()
+    rets = {}
+    seen = set()
+    stack = [(fn.entry, frozenset())]
+    while stack and len(seen) < limit:
+        bid, atoms = stack.pop()
+        if (bid, atoms) in seen:
+            continue
+        seen.add((bid, atoms))
+        b = fn.bmap[bid]
+        cur = set(atoms)
+        done = False
+        for i, ln, x in block_exprs(b):
+            for n in walk(x):
+                tgt = None
+                if n.get("k") == "bin" and n["op"] in ("=", "+=", "-=", "|=", "&=", "^=", "<<=", ">>="):
+                    tgt = strip(n["l"])
+                elif n.get("k") == "un" and n["op"] in ("++", "--", "post++", "post--"):
+                    tgt = strip(n["e"])
+                if tgt is not None and tgt.get("k") in ("var", "mem"):
+                    key = pp(tgt)
+                    cur = set(a for a in cur if key not in a[0])
+            if x.get("k") == "ret":
+                out.add((ln, id(x), frozenset(cur)))
+                rets[id(x)] = x
+                done = True
+                break
+        if done:
+            continue
+        t = b.get("term")
+        for k, sc in enumerate(b["succ"]):
+            s = sc.get("b")
+            if s is None:
+                continue
+            nxt = set(cur)
+            if t is not None and "c" in t and len(b["succ"]) == 2:
+                atoms_k = [(txt, tr) for (txt, tr, nd) in _cond_atoms(t["c"], k == 0)]
+                if any((txt, not tr) in nxt for (txt, tr) in atoms_k):
+                    continue           # contradicts an outcome already seen on this path
+                for (txt, tr) in atoms_k:
+                    if watch(txt):
+                        nxt.add((txt, tr))
+            stack.append((s, frozenset(nxt)))
+    return out, rets
